@@ -106,6 +106,18 @@ fn main() {
     let code = match args[1].as_str() {
         "run" => orchestrate(&m),
         "worker" => worker(&m),
+        // prints the schema of <repo>/proto in the frozen form (see wire::lock_text); used once, on the
+        // pinned commit, to produce harness/src/schema_lock.tsv
+        "schema-lock" => match wire::Schema::from_proto_dir(&PathBuf::from(m.get("repo").cloned().unwrap_or_else(|| "/repo".into())).join("proto")) {
+            Ok(s) => {
+                print!("{}", wire::lock_text(&s));
+                0
+            }
+            Err(e) => {
+                eprintln!("{e}");
+                2
+            }
+        },
         _ => {
             eprintln!("unknown subcommand");
             2
